@@ -4,7 +4,7 @@
 set -e
 cd "$(dirname "$0")"
 export CARGO_NET_OFFLINE=true
-mkdir -p work evidence replays
+mkdir -p work evidence replays harness/fixtures/empty
 ( cd coq && coq_makefile -f _CoqProject -o Makefile >/dev/null && timeout 3000 make -j16 ) 
 ( cd ocaml && coqc -Q ../coq/theories VFS ../coq/theories/Extract.v >/dev/null && ocamlfind ocamlopt -O3 -w -a -package str vfsmodel.mli vfsmodel.ml driver.ml -o vfsmodel )
 ( cd harness && cargo build --offline 2>&1 | tail -2 && cargo build --offline --release 2>&1 | tail -2 )
